@@ -253,7 +253,43 @@ func ruleR07_1(p *Program, r *Report) {
 					}
 				}
 				ok2, why := ctx.verifiedAt(ret)
-				r.Check(ok2, "R07.1", key, p.InstrPos(ret), "a return that may carry io.EOF happens only after the trailer has been verified", why)
+				if ok2 {
+					// where may that io.EOF come from? only from the next member's header read (file ends between
+					// members) or from the literal io.EOF of single-member mode
+					for _, leaf := range eofLeaves(p, fn, e) {
+						if c, ok := leaf.(*ssa.Call); ok {
+							if f := c.Common().StaticCallee(); f != nil && f.Name() == "readHeader" {
+								continue
+							}
+						}
+						if ex, ok := leaf.(*ssa.Extract); ok {
+							if c, ok := ex.Tuple.(*ssa.Call); ok {
+								if f := c.Common().StaticCallee(); f != nil && f.Name() == "readHeader" {
+									continue
+								}
+							}
+						}
+						if isSentinel(leaf, "io", "EOF") {
+							inst, _ := leaf.(ssa.Instruction)
+							single := false
+							if inst != nil {
+								for _, f := range dominatingFacts(inst) {
+									if f.Y == nil && f.Op == token.NEQ {
+										if root, _, ok := fieldLoad(f.X); ok && root == ctx.recv && isBoolType(f.X.Type()) {
+											single = true
+										}
+									}
+								}
+							}
+							if single || ctx.tr.Rel == "compress/zlib" {
+								continue
+							}
+						}
+						ok2 = false
+						why = "after the verification an io.EOF can come from " + describeValue(leaf) + ", which is neither the next header read nor single-member mode: a damaged later member could end the stream cleanly"
+					}
+				}
+				r.Check(ok2, "R07.1", key, p.InstrPos(ret), "a return that may carry io.EOF happens only after the trailer has been verified, and the EOF is the end of the file", why)
 			}
 		}
 		// mismatch edge stores a non-EOF error in the sticky field
@@ -711,4 +747,32 @@ func ruleR08_2(p *Program, r *Report) {
 			}
 		}
 	}
+}
+
+// eofLeaves: the sources of error value e (through phis, pass-through helpers and the unique reaching store of a field load).
+func eofLeaves(p *Program, fn *ssa.Function, e ssa.Value) []ssa.Value {
+	var out []ssa.Value
+	seen := map[ssa.Value]bool{}
+	var walk func(v ssa.Value)
+	walk = func(v ssa.Value) {
+		if seen[v] {
+			return
+		}
+		seen[v] = true
+		for _, leaf := range p.valueSources(v) {
+			if ld, ok := leaf.(*ssa.UnOp); ok && ld.Op == token.MUL {
+				if _, isG := ld.X.(*ssa.Global); !isG {
+					if st := reachingStore(fn, ld); st != nil {
+						walk(st.Val)
+						continue
+					}
+				}
+			}
+			if !isNil(leaf) {
+				out = append(out, leaf)
+			}
+		}
+	}
+	walk(e)
+	return out
 }
